@@ -74,7 +74,7 @@ theorem closed_mergeCore {c t : Graph} (aid : String) (done : List String) (hc :
 def mergeAll (c : Graph) : List Adm → Option Graph
   | [] => some c
   | a :: as =>
-    match merge c a with
+    match mergeN c a with
     | (none, g) => mergeAll g as
     | (some _, _) => none
 
@@ -101,7 +101,7 @@ theorem stamped_closed {a : Adm} (h : a.g.Closed) : a.stamped.Closed := by
   rw [stamped_ids]
   exact h e he
 
-theorem merge_WF {c : Graph} {a : Adm} {g : Graph} (hc : c.WF) (ha : a.WF) (h : merge c a = (none, g)) : g.WF := by
+theorem merge_WF {c : Graph} {a : Adm} {g : Graph} (hc : c.WF) (ha : a.WF) (h : mergeN c a = (none, g)) : g.WF := by
   have hs := merge_step hc.closed h
   rw [hs.eq]
   exact ⟨nodup_mergeCore _ _ hc.nodup (by rw [stamped_ids]; exact ha.nodup),
